@@ -205,12 +205,15 @@ Yields(tree, pat, p, strict, UC) ==
 
 \* candidates with their walk result and locked positions (computed once per tree)
 CandInfo(tree) == {[p |-> p, w |-> Walk(tree, p), lock |-> LockOf(p, Walk(tree, p).links)] : p \in Candidates(tree)}
-YieldsC(pat, c, strict, UC) ==
-  /\ ~InButs(pat, c.p)
-  /\ TypeOK(pat, c.w, strict)
-  /\ Match(pat.segs, c.p, IF strict THEN c.lock ELSE {}, strict, UC)
-MustC(cands, pat, UC) == {c.p : c \in {x \in cands : YieldsC(pat, x, TRUE, UC)}}
-MayC(cands, pat, UC)  == {c.p : c \in {x \in cands : YieldsC(pat, x, FALSE, UC)}}
+\* the candidates that match at all, each with the flag "matches under every reading";
+\* the global modifiers are filters on top of this set
+Matched(cands, segs, UC) ==
+  {[c |-> x, s |-> Match(segs, x.p, x.lock, TRUE, UC)] : x \in {y \in cands : Match(segs, y.p, {}, FALSE, UC)}}
+FilterOK(pat, c, strict) == ~InButs(pat, c.p) /\ TypeOK(pat, c.w, strict)
+MustOf(mi, pat) == {x.c.p : x \in {y \in mi : y.s /\ FilterOK(pat, y.c, TRUE)}}
+MayOf(mi, pat)  == {x.c.p : x \in {y \in mi : FilterOK(pat, y.c, FALSE)}}
+MustC(cands, pat, UC) == MustOf(Matched(cands, pat.segs, UC), pat)
+MayC(cands, pat, UC)  == MayOf(Matched(cands, pat.segs, UC), pat)
 Must(tree, pat, UC) == MustC(CandInfo(tree), pat, UC)
 May(tree, pat, UC)  == MayC(CandInfo(tree), pat, UC)
 
